@@ -387,7 +387,7 @@ def body(ck, quick, exes, lower_exe, work, always):
     ncorp = corpus_stage(ck, exes, work, always)
     ck.stage("corpus", evaluations=ncorp)
     # ---- (a) unit level
-    nunit = 2500 if quick else 100000
+    nunit = 5000 if quick else 100000
     diffs, nfun, kinds = unit_stage(ck, lower_exe, work, nunit, always)
     ck.stage("unit", functions=nfun, diffs=len(diffs))
     for fn, c, l, P in diffs[:3]:
@@ -396,7 +396,7 @@ def body(ck, quick, exes, lower_exe, work, always):
                                "function": fn, "source": [mirgen.fmt_insn(i) for i in src[0][3]] if src else None,
                                "library": c, "model": l})
     # ---- (b) whole programs
-    nprog = 200 if quick else 10000
+    nprog = 400 if quick else 10000
     progs = []
     feat, gstats, shapes = {}, {}, {}
     census = {}
